@@ -3,8 +3,13 @@
 # restored by seedtest.sh).  usage: seedrun.sh [seed-id ...]
 cd /verif || exit 2
 if [ $# -eq 0 ]; then set -- C18a C02a C02b C14a C03b C03a C19a C16a C15a C17a C01a C08b C06a C05a C09a C04a C04b C11a C13a C12a C12b C10a; fi
+# the evidence / replay files written while /repo is patched describe the patched tree: keep the clean ones aside
+bak=$(mktemp -d /tmp/verif-evidence.XXXXXX)
+cp -r evidence "$bak/evidence"; [ -d replays ] && cp -r replays "$bak/replays"
 for id in "$@"; do
   prop=$(echo $id | cut -c1-3)
   ./lib/seedtest.sh $id $prop
 done
+rm -rf evidence replays; cp -r "$bak/evidence" evidence; [ -d "$bak/replays" ] && cp -r "$bak/replays" replays
+rm -rf "$bak"
 python3 lib/seedreport.py
